@@ -9,6 +9,9 @@ const HooksOn = false
 // InstallHooks does nothing without the verif build tag.
 func InstallHooks() {}
 
+// SetPerturb does nothing without the verif build tag.
+func SetPerturb(bool) {}
+
 // HookSeen returns 0 without the verif build tag.
 func HookSeen() int64 { return 0 }
 
